@@ -5,6 +5,7 @@ import (
 	"context"
 	"encoding/hex"
 	"encoding/json"
+	"errors"
 	"fmt"
 	"math/big"
 	"regexp"
@@ -107,15 +108,21 @@ func cmdTracerPair(args []string) error {
 			if sp.cfg != "" {
 				cfg = json.RawMessage(sp.cfg)
 			}
-			ta, err := atracers.DefaultDirectory.New(sp.name, &atracers.Context{TxHash: common.HexToHash("0x01")}, cfg)
+			ta, err := atracers.DefaultDirectory.New(sp.name, &atracers.Context{TxHash: common.HexToHash("0x01"), TxIndex: 3, BlockHash: common.HexToHash("0xb10c"), BlockNumber: big.NewInt(impl.BlockNumber)}, cfg)
 			if err != nil {
 				return fmt.Errorf("artela tracer %s: %v", sp.name, err)
 			}
-			tu, err := utracers.DefaultDirectory.New(sp.name, &utracers.Context{TxHash: common.HexToHash("0x01")}, cfg)
+			tu, err := utracers.DefaultDirectory.New(sp.name, &utracers.Context{TxHash: common.HexToHash("0x01"), TxIndex: 3, BlockHash: common.HexToHash("0xb10c"), BlockNumber: big.NewInt(impl.BlockNumber)}, cfg)
 			if err != nil {
 				return fmt.Errorf("upstream tracer %s: %v", sp.name, err)
 			}
 			at, ut = ta, tu
+			if rr.Intn(12) == 0 && sp.name != "flatCallTracer" { // go-ethereum v1.12.0's flat tracer panics in CaptureExit when stopped before the run (index -1); Artela's does not
+				// a tracer that was told to stop (timeout / cancelled request) ignores the execution and reports the reason
+				cs.Config += " (stopped before the run)"
+				ta.Stop(errors.New("halted by the caller"))
+				tu.Stop(errors.New("halted by the caller"))
+			}
 			aRes = func() (string, error) { b, e := ta.GetResult(); return string(b), e }
 			uRes = func() (string, error) { b, e := tu.GetResult(); return string(b), e }
 		case kind < 9:
@@ -125,10 +132,30 @@ func cmdTracerPair(args []string) error {
 			var cu ulogger.Config
 			json.Unmarshal([]byte(cs.Config), &ca)
 			json.Unmarshal([]byte(cs.Config), &cu)
+			if kind == 8 {
+				// the markdown logger writes its table while the execution runs
+				cs.Tracer = "mdLogger"
+				var ba, bu bytes.Buffer
+				at, ut = alogger.NewMarkdownLogger(&ca, &ba), ulogger.NewMarkdownLogger(&cu, &bu)
+				aRes = func() (string, error) { return normTraceText(ba.String()), nil }
+				uRes = func() (string, error) { return normTraceText(bu.String()), nil }
+				break
+			}
 			la, lu := alogger.NewStructLogger(&ca), ulogger.NewStructLogger(&cu)
 			at, ut = la, lu
-			aRes = func() (string, error) { b, e := la.GetResult(); return string(b), e }
-			uRes = func() (string, error) { b, e := lu.GetResult(); return string(b), e }
+			// GetResult plus the human-readable dump of the same logs (WriteTrace)
+			aRes = func() (string, error) {
+				b, e := la.GetResult()
+				var tb bytes.Buffer
+				alogger.WriteTrace(&tb, la.StructLogs())
+				return string(b) + "\n" + normTraceText(tb.String()), e
+			}
+			uRes = func() (string, error) {
+				b, e := lu.GetResult()
+				var tb bytes.Buffer
+				ulogger.WriteTrace(&tb, lu.StructLogs())
+				return string(b) + "\n" + normTraceText(tb.String()), e
+			}
 		default:
 			cs.Tracer = "accessListTracer"
 			cfgc, merge := impl.ChainConfig(fork)
@@ -248,6 +275,32 @@ func cmdTracerPair(args []string) error {
 // the five opcode bytes Artela renumbered or added have different NAMES in the two code bases even where both leave
 // them undefined (0x5c/0x5d/0x5e are TLOAD/TSTORE/MCOPY in Artela's name table, 0xb3/0xb4 TLOAD/TSTORE in go-ethereum's)
 var renumberedOpName = regexp.MustCompile(`"op":"(TLOAD|TSTORE|MCOPY|opcode 0x(5c|5d|5e|b3|b4) not defined)"`)
+
+var renumberedOpText = regexp.MustCompile(`(?m)(^|\| *\d+ *\| *)(TLOAD|TSTORE|MCOPY|opcode 0x(5c|5d|5e|b3|b4) not defined)\b`)
+
+// normTraceText: the same normalisation for the text dumps (WriteTrace lines start with the opcode name, the markdown
+// logger has it in the second column)
+func normTraceText(s string) string {
+	s = renumberedOpText.ReplaceAllString(s, "$1<renumbered opcode byte>")
+	// WriteTrace prints the storage map of a step by ranging over it (Go map order, in both code bases): sort each run
+	lines := strings.Split(s, "\n")
+	for i := 0; i < len(lines); {
+		j := i
+		for j < len(lines) && storageLine.MatchString(lines[j]) {
+			j++
+		}
+		if j > i+1 {
+			sort.Strings(lines[i:j])
+		}
+		if j == i {
+			j++
+		}
+		i = j
+	}
+	return strings.Join(lines, "\n")
+}
+
+var storageLine = regexp.MustCompile(`^[0-9a-f]{64}: [0-9a-f]{64}$`)
 
 // normTracerJSON rewrites `invalid opcode: <name>` error texts to their class and the names of the renumbered opcode bytes.
 func normTracerJSON(s string) string {
